@@ -2,24 +2,26 @@
   C15 — Only the Zookeeper lock holder evaluates and notifies.  Property theorems only.
 
   `ZkLoop.step` models manageEvalLoop + the zookeeper coordinator's session events + the request loops,
-  with the environment (lock results, expiry, reconnection) free to act at ANY point.  Partial by
-  nature: the theorems are over the modelled atomic steps; preemption inside them and the unsynchronised
-  `doEvaluations` bool are not modelled.
+  with the environment (lock results, expiry, reconnection) free to act at ANY point.  The theorems are
+  over the modelled atomic steps; preemption inside them and the unsynchronised `doEvaluations` bool are
+  not modelled.
 -/
 import BurrowVerif.Model.ZkLoop
 
 namespace Burrow.Props.C15
 open Burrow.ZkLoop
 
-/-- what holds in every reachable state as long as no expiry is broadcast between `Lock()` returning
-    and the manager reaching `Wait()` -/
+/-- what holds in every reachable state, whatever the environment does and whenever it does it -/
 structure Inv (s : St) : Prop where
   /-- the gate is open only while the manager is between setting the flag and clearing it -/
   flagPc : s.flag = true → s.pc = .flagSet ∨ s.pc = .waiting ∨ s.pc = .woken
-  /-- from `Lock()` returning until the expiry wakes the manager, the lock is owned -/
-  owned  : s.pc = .locked ∨ s.pc = .flagSet ∨ s.pc = .waiting → s.owns = true
-  /-- no sweep ever ran without the lock (other than in the instant between the broadcast and the
-      manager clearing the flag) -/
+  /-- from `Lock()` returning until the manager looks at the expiration count, the lock is owned or an
+      expiry has been counted -/
+  owned  : s.pc = .locked ∨ s.pc = .flagSet → s.owns = true ∨ s.pending = true
+  /-- the manager WAITS only while it owns the lock and no expiry is uncounted: no expiry is ever lost -/
+  waits  : s.pc = .waiting → s.owns = true ∧ s.pending = false
+  /-- no sweep ever ran without the lock, other than in the instants between an expiry and the manager
+      clearing the flag (`woken`; `flagSet` with an expiry counted) -/
   clean  : s.badSweeps = 0
 
 /-- the resume protocol, in every reachable state whatever the environment does: the stage counter is
@@ -34,7 +36,8 @@ structure Resume (s : St) : Prop where
 
 theorem resume_step {s s' : St} {e : Ev} (h : Resume s) (hs : step s e = some s') : Resume s' := by
   obtain ⟨h1, h2, h3, h4⟩ := h
-  cases e <;> simp only [step] at hs
+  rcases Bool.eq_false_or_eq_true s.pending with hp0 | hp0
+  all_goals cases e <;> simp only [step, hp0] at hs
   all_goals try split at hs
   all_goals try (simp at hs; done)
   all_goals (simp only [Option.some.injEq] at hs; subst hs)
@@ -56,44 +59,43 @@ theorem resume_run : ∀ (evs : List Ev) {s s' : St}, Resume s → run s evs = s
 theorem resumes_only_after (evs : List Ev) (s : St) (h : run {} evs = some s) : Resume s :=
   resume_run evs ⟨by simp, by simp, by simp, by simp⟩ h
 
-theorem inv_step {s s' : St} {e : Ev} (h : Inv s) (hne : earlyExpiry s e = false) (hs : step s e = some s') : Inv s' := by
-  obtain ⟨h1, h2, h3⟩ := h
-  cases e <;> simp only [step] at hs
+theorem inv_step {s s' : St} {e : Ev} (h : Inv s) (hs : step s e = some s') : Inv s' := by
+  obtain ⟨h1, h2, h3, h4⟩ := h
+  rcases Bool.eq_false_or_eq_true s.pending with hp0 | hp0
+  all_goals cases e <;> simp only [step, hp0] at hs
   all_goals try split at hs
   all_goals try (simp at hs; done)
   all_goals (simp only [Option.some.injEq] at hs; subst hs)
-  all_goals (constructor <;> (try intro hp) <;> simp_all [earlyExpiry] <;> (try omega))
-  -- the sweep case: the gate is open, so the manager is at flagSet / waiting (lock owned) or woken
-  intro hown
-  rcases h1 with h | h | h
-  · simp [h] at h2; simp [h2] at hown
-  · simp [h] at h2; simp [h2] at hown
-  · exact h
+  all_goals (constructor <;> (try intro hp) <;> simp_all <;> (try omega))
+  all_goals (try (rcases h1 with h | h | h <;> simp_all))
+  all_goals (try (intros; rcases h1 with h | h <;> simp_all))
 
-theorem inv_run : ∀ (evs : List Ev) {s s' : St}, Inv s → noEarlyExpiry s evs = true → run s evs = some s' → Inv s' := by
+theorem inv_run : ∀ (evs : List Ev) {s s' : St}, Inv s → run s evs = some s' → Inv s' := by
   intro evs
   induction evs with
-  | nil => intro s s' h _ hr; simp [run] at hr; subst hr; exact h
+  | nil => intro s s' h hr; simp [run] at hr; subst hr; exact h
   | cons e es ih =>
-    intro s s' h hne hr
+    intro s s' h hr
     simp only [run] at hr
-    simp only [noEarlyExpiry, Bool.and_eq_true, Bool.not_eq_true'] at hne
     cases hs : step s e with
     | none => simp [hs] at hr
-    | some s1 =>
-      rw [hs] at hr
-      have hne2 := hne.2
-      rw [hs] at hne2
-      exact ih (inv_step h hne.1 hs) hne2 hr
+    | some s1 => rw [hs] at hr; exact ih (inv_step h hs) hr
 
-/-- **only the lock holder evaluates (partial)**: for every sequence of lock failures, expiries and
-    reconnections with any timing in which no expiry is broadcast between `Lock()` returning and the
-    manager reaching `Wait()`, in every reachable state: the gate is open only between setting and
-    clearing the flag, the lock is owned from acquisition until an expiry wakes the manager, and no
-    sweep has ever run without the lock -/
-theorem holder_only_partial (evs : List Ev) (s : St) (hne : noEarlyExpiry {} evs = true) (h : run {} evs = some s) :
-    Inv s :=
-  inv_run evs ⟨by simp, by simp, rfl⟩ hne h
+/-- **only the lock holder evaluates**: for EVERY sequence of lock failures, expiries, reconnections and
+    other session events with any timing — including an expiry broadcast between `Lock()` returning and
+    the manager reaching `Wait()` — in every reachable state: the gate is open only between setting and
+    clearing the flag; the manager waits only while it owns the lock and no expiry is uncounted; and no
+    sweep has ever run without the lock, other than in the instants between an expiry and the manager
+    clearing the flag.  (Full strength since the repair of D12: the manager notes the expiration count
+    before `Lock()` and does not wait if it has changed.) -/
+theorem holder_only (evs : List Ev) (s : St) (h : run {} evs = some s) : Inv s :=
+  inv_run evs ⟨by simp, by simp, by simp, rfl⟩ h
+
+/-- **no expiry is lost**: in no reachable state is the manager waiting with an expiry it has not counted -/
+theorem expiry_never_lost (evs : List Ev) (s : St) (h : run {} evs = some s) (hw : s.pc = .waiting) :
+    s.pending = false ∧ s.owns = true :=
+  let i := holder_only evs s h
+  ⟨(i.waits hw).2, (i.waits hw).1⟩
 
 /-- after an expiry has woken the manager the only thing it can do is clear the flag -/
 theorem woken_clears (s s' : St) (e : Ev) (hpc : s.pc = .woken) (hs : step s e = some s') :
@@ -109,48 +111,28 @@ theorem woken_clears (s s' : St) (e : Ev) (hpc : s.pc = .woken) (hs : step s e =
     connected.  (All theorems above quantify over event sequences that may contain them anywhere.) -/
 theorem other_session_events_change_nothing (s : St) : step s .otherSession = some s := rfl
 
-/-! ### the lost wake-up (known finding D12) -/
+/-! ### the lost wake-up (D12), repaired -/
 
-/-- the expiry is broadcast after `Lock()` returned and before the manager waits: nobody is woken -/
+/-- the expiry is broadcast after `Lock()` returned and before the manager waits -/
 def lostWakeupTrace : List Ev := [.wake, .lockOk, .expire, .setFlag, .enterWait]
 
-def lostWakeupState : St :=
-  { pc := .waiting, flag := true, connected := false, loops := 1, owns := false, stage := 3, badSweeps := 0 }
+/-- the defect that was repaired: under the ORIGINAL protocol (`Wait()` unconditionally) that trace
+    leaves the manager waiting with the gate open and the lock gone, and the request loop's sweeps run
+    without the lock for as long as no further expiry comes -/
+theorem original_protocol_lost_the_wakeup :
+    (runOld {} (lostWakeupTrace ++ [.sweep, .reconnect, .sweep, .sweep])).map
+      (fun s => (s.pc, s.flag, s.owns, s.badSweeps)) = some (.waiting, true, false, 3) := by decide
 
-theorem lost_wakeup_witness : run {} lostWakeupTrace = some lostWakeupState := by decide
+/-- under the repaired protocol the same trace ends with the manager woken (it did not wait), whose
+    only move is to clear the flag (`woken_clears`) … -/
+theorem early_expiry_is_seen :
+    (run {} lostWakeupTrace).map (fun s => (s.pc, s.pending)) = some (.woken, true) := by decide
 
-/-- … and from there the gate stays open without the lock for EVERY continuation that contains no
-    further expiry (`sync.Cond` broadcasts are not remembered), each sweep being one without the lock -/
-theorem lost_wakeup_stuck : ∀ (evs : List Ev) (s s' : St), s.pc = .waiting → s.flag = true → s.owns = false →
-    (∀ e ∈ evs, e ≠ .expire) → run s evs = some s' →
-    s'.pc = .waiting ∧ s'.flag = true ∧ s'.owns = false ∧
-      s'.badSweeps = s.badSweeps + (evs.filter (· == .sweep)).length := by
-  intro evs
-  induction evs with
-  | nil => intro s s' h1 h2 h3 _ hr; simp [run] at hr; subst hr; simp [h1, h2, h3]
-  | cons e es ih =>
-    intro s s' h1 h2 h3 hne hr
-    simp only [run] at hr
-    cases hs : step s e with
-    | none => simp [hs] at hr
-    | some s1 =>
-      rw [hs] at hr
-      have he : e ≠ .expire := hne e (by simp)
-      have hrest : ∀ e' ∈ es, e' ≠ Ev.expire := fun e' h' => hne e' (by simp [h'])
-      cases e <;> simp only [step] at hs
-      all_goals try split at hs
-      all_goals try (simp at hs; done)
-      all_goals try (simp_all; done)
-      all_goals (simp only [Option.some.injEq] at hs; subst hs)
-      · -- reconnect
-        have := ih _ s' (by simpa using h1) (by simpa using h2) (by simpa using h3) hrest hr
-        simpa using this
-      · -- any other session event
-        exact ih _ s' h1 h2 h3 hrest hr
-      · -- sweep
-        have := ih _ s' (by simpa using h1) (by simpa using h2) (by simpa using h3) hrest hr
-        simp [h1, h3] at this
-        simp [this]; omega
+/-- … and the whole recovery runs: flag cleared, loop ended, connection back, old lock released, lock
+    taken again, evaluations resumed — without a single sweep outside the lock -/
+example : (run {} (lostWakeupTrace ++ [.sweep, .clearFlag, .loopExit, .reconnect, .seeConnected, .unlockOk, .wake, .lockOk,
+    .setFlag, .enterWait, .sweep])).map (fun s => (s.pc, s.flag, s.owns, s.badSweeps, s.stage)) =
+    some (.waiting, true, true, 0, 3) := by decide
 
 /-! ### pacing -/
 
@@ -178,9 +160,7 @@ theorem pacing (minInterval : Int) : ∀ (sweepTimes : List Int) (lastEval : Int
       exact ih lastEval
 
 /-- non-vacuity: a full cycle — acquire, evaluate, expiry, reconnect, release, acquire again, evaluate —
-    has no early expiry, runs, and ends with the gate open and the lock owned -/
-example : noEarlyExpiry {} [.wake, .lockFail, .wake, .lockOk, .setFlag, .enterWait, .sweep, .expire, .sweep, .clearFlag,
-    .loopExit, .reconnect, .seeConnected, .unlockOk, .wake, .lockOk, .setFlag, .enterWait, .sweep] = true := by decide
+    runs, and ends with the gate open and the lock owned -/
 example : (run {} [.wake, .lockFail, .wake, .lockOk, .setFlag, .enterWait, .sweep, .expire, .sweep, .clearFlag,
     .loopExit, .reconnect, .seeConnected, .unlockOk, .wake, .lockOk, .setFlag, .enterWait, .sweep]).map
       (fun s => (s.flag, s.owns, s.badSweeps, s.stage)) = some (true, true, 0, 3) := by decide
